@@ -12,7 +12,7 @@ ASSUMPTIONS = [
     "competitor tasks only await asyncio.sleep(0); the explorer picks the next ready handle (superset of FIFO)",
 ]
 MODE = sched.Mode("C30", tocks=True, rets=True, raises=True, enterdone=True, enterfail=True, horizon=3,
-                  limits=(None, 2.0, 2.5, 0.3), always=True, callcfg=True, rerun=True, prerun=True)
+                  limits=(None, 2.0, 2.5, 0.3), always=True, callcfg=True, rerun=True, prerun=True, sysexit=True, stale=True)
 
 
 def BOUND(tier):
